@@ -153,6 +153,18 @@ theorem rcde_keys_activate_with_v4 :
   decide
 end Pegnet.C05
 
+namespace Pegnet.C05
+open Pegnet
+/-- the shipped schedule, regenerated from config/activations.go and fat/fat2/activations.go on every
+    run, against the values this property was read with: the height above which RCD-e keys sign. Every scenario of the harness
+    runs on a compressed schedule that overwrites these constants, so nothing else would notice one of
+    them moving; a moved height is a different protocol, not a rewrite. -/
+theorem shipped_schedule :
+    let a := Generated.activations
+    Generated.activationsComplete = true ∧ a.rcde = 231620 := by
+  decide
+end Pegnet.C05
+
 #print axioms Pegnet.C05.invalid_entry_inert
 #print axioms Pegnet.C05.held_revalidated
 #print axioms Pegnet.C05.key_type_by_height
@@ -164,3 +176,4 @@ end Pegnet.C05
 #print axioms Pegnet.C05.chain_debit_needs_signature
 #print axioms Pegnet.C05.debitable_batch_is_signed
 #print axioms Pegnet.C05.rcde_keys_activate_with_v4
+#print axioms Pegnet.C05.shipped_schedule
